@@ -75,6 +75,8 @@ def hostile_texts(rng, tier):
             ('huge-comment-open', b'/*' + b'c\n' * (big // 4)), ('huge-line-comment', b'#' * big), ('many-lines', b'\n' * big + b'bogus'),
             ('huge-escape', b's = "\\' + b'7' * big + b'"'), ('huge-env', b's = ${' + b'N' * big + b'}'),
             ('long-title', b't "' + b't' * big + b'" { a = 1 }'), ('many-sections', b'm { a = 1 }\n' * (big // 20)),
+            ('kv-many-keys', b'kv { ' + b' '.join(b'k%d = v%d' % (i, i) for i in range(40)) + b' }'),
+            ('kv-reopened', b'kv { a = 1 }\nkv { b = 2 c = "x y" }\nkv { a = 4 d = 5 }\n'), ('kv-few-keys', b'kv { a = 1 b = 2 c = 3 }'),
             ('nul-bytes', b'i = 1\0 garbage " \' /*'), ('only-nul', b'\0'), ('crlf', b'i = 1\r\ns = "a"\r\n'),
             ('bom', b'\xef\xbb\xbfi = 1\n'), ('fn-many-args', b'fn(' + b'a,' * (big // 10) + b'b)')]
     return out
